@@ -263,3 +263,183 @@ func orStr(a, b string) string {
 	}
 	return b
 }
+
+// ---------------------------------------------------------------------------------------------
+// Raced-reader probe (round 5): Synchronizer.PreConfirmedChain reads the canonical chain several times
+// with nothing held in between. juno's own read listener (blockchain.WithListener) lets the harness move
+// the head DETERMINISTICALLY between two of those reads: when HeadsHeader() is entered — i.e. after
+// Height() and SnapshotForBlock, before the fallback block is built — the hook reverts the head or
+// finalises one more block. Model: Model.lean `preConfirmedChain (height₁) store (height₂) hashOf`,
+// theorem reader_view_under_head_movement. Oracle: a view that is handed out is not empty, gap-free, and
+// starts one above a canonical head observed during the call: h₁+1 when it is the stored snapshot, h₂+1
+// when it is the blank fallback block, whose state then reads like the canonical state at h₂.
+// ---------------------------------------------------------------------------------------------
+
+func (h *harness) racedReaderProbe(rng *lib.RNG) {
+	for _, newState := range []bool{false, true} {
+		h.racedReaderOne(rng.Fork(uint64(len(fmt.Sprint(newState)))), newState)
+	}
+}
+
+func (h *harness) racedReaderOne(rng *lib.RNG, newState bool) {
+	const nBase = 13
+	base, _ := genBase(rng, nBase+1)
+	var hook func(method string)
+	node := newNodeWithListener(newState, func(m string) {
+		if f := hook; f != nil {
+			f(m)
+		}
+	})
+	for i := 0; i < nBase; i++ {
+		if err := node.finalise(base[i].Diff.coreDiff(), classMap(base[i].Classes)); err != nil {
+			h.res.Fatalf("raced-reader probe: setup failed: %v", err)
+			return
+		}
+	}
+	syn := junosync.New(node.bc, nil, log.NewNopZapLogger(), 0, false, nil)
+	f, err := unexportedField(syn, "preConfirmed")
+	if err != nil {
+		h.res.Fatalf("raced-reader probe: cannot reach the Synchronizer's chain storage: %v", err)
+		return
+	}
+	store, ok := f.Interface().(*preconfirmed.ChainStorage)
+	if !ok || store == nil {
+		h.res.Fatalf("raced-reader probe: Synchronizer.preConfirmed is not a *ChainStorage")
+		return
+	}
+	height := func() uint64 { return uint64(node.height - 1) }
+	// storage shapes relative to the head H the call starts with: offsets of the stored slots from H
+	shapes := map[string][]uint64{"empty": nil, "at-H+1": {1, 2}, "at-H+2": {2, 3}, "at-H": {0, 1}}
+	for _, shape := range []string{"empty", "at-H+1", "at-H+2", "at-H"} {
+		for _, move := range []string{"none", "revert", "advance"} {
+			h0 := height()
+			replay := map[string]any{"kind": "raced-reader-probe", "new_state": newState, "head": h0, "storage": shape, "head_move_before_HeadsHeader": move}
+			store.AdvanceTo(1 << 40) // drop whatever is stored
+			var lines []string
+			lines = append(lines, "reset")
+			for i, off := range shapes[shape] {
+				num, oldest := h0+off, h0+shapes[shape][0]
+				o := blockOp(num, oldest, fmt.Sprintf("q%d", i), nil)
+				if _, err := store.ApplyUpdate(o.U.wire(num), num, 0, oldest, nil); err != nil {
+					h.res.Fatalf("raced-reader probe: storage setup rejected: %v", err)
+					return
+				}
+				lines = append(lines, o.applyLine())
+			}
+			fired := false
+			hook = func(m string) {
+				if m != "HeadsHeader" || fired {
+					return
+				}
+				fired = true
+				hook = nil // one shot; the move below reads the chain itself
+				switch move {
+				case "revert":
+					if err := node.bc.RevertHead(); err != nil {
+						h.res.Fatalf("raced-reader probe: RevertHead: %v", err)
+						return
+					}
+					node.height--
+				case "advance":
+					nb := base[node.height]
+					if hd, err := node.bc.HeadsHeader(); err == nil {
+						node.lastHash, node.lastRoot = hd.Hash, hd.GlobalStateRoot
+					}
+					if err := node.finalise(nb.Diff.coreDiff(), classMap(nb.Classes)); err != nil {
+						h.res.Fatalf("raced-reader probe: finalise: %v", err)
+					}
+				}
+			}
+			var v preconfirmed.ChainReader
+			var cerr error
+			perr, panicked, stack := lib.Try(func() error { v, cerr = syn.PreConfirmedChain(); return nil })
+			hook = nil
+			h2 := height()
+			h.res.Case(fmt.Sprintf("raced/%v/%s/%s", newState, shape, move), true)
+			h.res.Hit("raced-reader-calls")
+			if fired && move != "none" {
+				h.res.Hit("raced-reader-head-moved-between-the-reads:" + move)
+			}
+			impl := ""
+			switch {
+			case panicked:
+				impl = "panic"
+				h.res.Violate(lib.Violation{Sig: "reader-entry-panics", What: fmt.Sprintf("%v\n%s", perr, clip(stack)), Replay: replay})
+			case cerr != nil:
+				impl = "err"
+				h.res.Violate(lib.Violation{Sig: "reader-entry-fails", What: fmt.Sprintf("head %d -> %d during the call, storage %s: PreConfirmedChain failed: %v", h0, h2, shape, cerr), Replay: replay})
+			default:
+				snap := store.SnapshotForBlock(h0 + 1)
+				want := h2 + 1 // the fallback is built above the head the SECOND read saw
+				if snap.Length() > 0 {
+					want = h0 + 1
+					impl = canonView(&v)
+				} else {
+					impl = fmt.Sprintf("fallback %d", vFirst(&v))
+				}
+				msg := validateView(&v, want)
+				if v.Length() == 0 {
+					msg = "view-empty"
+				}
+				if msg != "" {
+					h.res.Violate(lib.Violation{Sig: "reader-entry-" + msg,
+						What: fmt.Sprintf("canonical head %d when Height() was read, %d when HeadsHeader() was read (the head moved in between: %s), storage %s: "+
+							"PreConfirmedChain handed out %s; it must be a gap-free run starting at %d", h0, h2, move, shape, clip(canonView(&v)), want), Replay: replay})
+				} else if snap.Length() == 0 {
+					// the fallback block reads like the canonical state at the head it was built on
+					sr, _, e1 := v.PreConfirmedStateAt(want, node.bc)
+					br, _, e2 := node.bc.StateAtBlockNumber(h2)
+					if e1 != nil || e2 != nil {
+						h.res.Violate(lib.Violation{Sig: "reader-entry-fallback-state-unavailable", What: fmt.Sprintf("PreConfirmedStateAt(%d): %v; StateAtBlockNumber(%d): %v", want, e1, h2, e2), Replay: replay})
+					} else if a, b := reads(sr), reads(br); a != b {
+						h.res.Violate(lib.Violation{Sig: "reader-entry-fallback-state-differs-from-head-state",
+							What: fmt.Sprintf("fallback block %d (head moved %d -> %d during the call):\n through the view: %s\n canonical at %d : %s", want, h0, h2, a, h2, b), Replay: replay})
+					}
+				}
+			}
+			if h.drv != nil && impl != "panic" {
+				for _, l := range lines {
+					if out, err := h.drv.Ask(l); err != nil || out == "bad-op" {
+						h.res.Fatalf("raced-reader probe: the Lean driver failed on %q: %v %s", clip(l), err, out)
+						return
+					}
+				}
+				impl2 := impl
+				if impl == "err" {
+					impl2 = "err:?"
+				}
+				h.askProbe("raced reader", fmt.Sprintf("pcc %d %d 1", h0, h2), impl2)
+			}
+			// restore the head for the next case
+			switch {
+			case fired && move == "revert":
+				nb := base[node.height]
+				if hd, err := node.bc.HeadsHeader(); err == nil {
+					node.lastHash, node.lastRoot = hd.Hash, hd.GlobalStateRoot
+				}
+				if err := node.finalise(nb.Diff.coreDiff(), classMap(nb.Classes)); err != nil {
+					h.res.Fatalf("raced-reader probe: re-finalising the reverted block: %v", err)
+					return
+				}
+			case fired && move == "advance":
+				if err := node.bc.RevertHead(); err != nil {
+					h.res.Fatalf("raced-reader probe: RevertHead: %v", err)
+					return
+				}
+				node.height--
+				if hd, err := node.bc.HeadsHeader(); err == nil {
+					node.lastHash, node.lastRoot = hd.Hash, hd.GlobalStateRoot
+				}
+			}
+		}
+	}
+}
+
+func vFirst(v *preconfirmed.ChainReader) uint64 {
+	for e := range v.OldestFirst() {
+		if e != nil && e.Block != nil {
+			return e.Block.Number
+		}
+	}
+	return 0
+}
